@@ -9,21 +9,51 @@ import (
 	"strings"
 )
 
-// moduleMaps are the fields of the root struct that together hold every loaded module.
-var moduleMaps = map[string]bool{"Modules": true, "SubModules": true}
+// moduleMaps are the MODULE CONTAINERS: the registry fields of the root struct whose type mentions
+// *Module (computed in classifyResets: Modules, SubModules, unrevisioned today).  Every module the
+// set has accepted is held by at least one of them - and a module can be held by ONE only (an
+// unrevisioned module that a later revision displaced is in unrevisioned alone), so a reset "for
+// every module" must range over all of them.
+var moduleMaps = map[string]bool{}
+
+// cover is a set of module containers, as a sorted comma-separated list.
+func coverOf(names ...string) string {
+	set := map[string]bool{}
+	for _, n := range names {
+		for _, x := range strings.Split(n, ",") {
+			if x != "" {
+				set[x] = true
+			}
+		}
+	}
+	return strings.Join(sortedKeys(set), ",")
+}
+
+func covers(cover string, required []string) bool {
+	have := map[string]bool{}
+	for _, x := range strings.Split(cover, ",") {
+		have[x] = true
+	}
+	for _, r := range required {
+		if !have[r] {
+			return false
+		}
+	}
+	return true
+}
 
 // binding says what a loop variable stands for.
 type binding struct {
-	kind       string // "maps": one of the module maps; "module": a loaded module; "elem": an element of a slice field of a loaded module
-	mods, subs bool   // which of the two maps are covered
+	kind  string // "maps": one of the module maps; "module": a loaded module; "elem": an element of a slice field of a loaded module
+	cover string // which module containers are covered
 }
 
 type resetFact struct {
-	full       bool // assigned a fresh value / cleared, unconditionally, on the object reached from the root
-	mods, subs bool // the same for every element reached from every module of ms.Modules / ms.SubModules
-	partial    []string
-	bump       bool
-	sites      []string
+	full    bool   // assigned a fresh value / cleared, unconditionally, on the object reached from the root
+	cover   string // the same for every element reached from every module of these module containers
+	partial []string
+	bump    bool
+	sites   []string
 }
 
 type resetWalker struct {
@@ -159,41 +189,37 @@ func (w *world) accessorField(fd *ast.FuncDecl) (fieldKey, bool) {
 // iteratorCoverage: a function whose body consists only of range loops over module maps of its
 // receiver whose bodies are a single call of its function parameter with the loop value; returns
 // which maps it covers.
-func (w *world) iteratorCoverage(fd *ast.FuncDecl) (mods, subs, ok bool) {
+func (w *world) iteratorCoverage(fd *ast.FuncDecl) (cover string, ok bool) {
 	if fd == nil || fd.Body == nil || fd.Type.Params == nil || len(fd.Type.Params.List) != 1 {
-		return false, false, false
+		return "", false
 	}
 	p := fd.Type.Params.List[0]
 	if _, isFunc := p.Type.(*ast.FuncType); !isFunc || len(p.Names) != 1 {
-		return false, false, false
+		return "", false
 	}
 	for _, s := range fd.Body.List {
 		rs, isRange := s.(*ast.RangeStmt)
 		if !isRange || len(rs.Body.List) != 1 {
-			return false, false, false
+			return "", false
 		}
 		es, isExpr := rs.Body.List[0].(*ast.ExprStmt)
 		if !isExpr {
-			return false, false, false
+			return "", false
 		}
 		c, isCall := es.X.(*ast.CallExpr)
 		if !isCall {
-			return false, false, false
+			return "", false
 		}
 		if id, isID := c.Fun.(*ast.Ident); !isID || id.Name != p.Names[0].Name {
-			return false, false, false
+			return "", false
 		}
 		k, isField := w.fieldOf(rs.X)
 		if !isField || k.Struct != w.cfg.Root || !moduleMaps[k.Field] {
-			return false, false, false
+			return "", false
 		}
-		if k.Field == "Modules" {
-			mods = true
-		} else {
-			subs = true
-		}
+		cover = coverOf(cover, k.Field)
 	}
-	return mods, subs, mods || subs
+	return cover, cover != ""
 }
 
 func (rw *resetWalker) walk(stmts []ast.Stmt, env map[types.Object]binding, cond bool, depth int) {
@@ -261,8 +287,7 @@ func (rw *resetWalker) stmt(s ast.Stmt, env map[types.Object]binding, cond bool,
 				}
 				switch {
 				case bound && (b.kind == "elem" || b.kind == "module"):
-					f.mods = f.mods || b.mods
-					f.subs = f.subs || b.subs
+					f.cover = coverOf(f.cover, b.cover)
 				case rooted:
 					f.full = true
 				default:
@@ -324,30 +349,26 @@ func (rw *resetWalker) rangeBinding(e ast.Expr, env map[types.Object]binding) (b
 			if !ok || k.Struct != w.cfg.Root || !moduleMaps[k.Field] {
 				return binding{}, false
 			}
-			if k.Field == "Modules" {
-				b.mods = true
-			} else {
-				b.subs = true
-			}
+			b.cover = coverOf(b.cover, k.Field)
 		}
-		return b, b.mods || b.subs
+		return b, b.cover != ""
 	case *ast.Ident:
 		if o := w.info.Uses[x]; o != nil {
 			if b, ok := env[o]; ok && b.kind == "maps" {
-				return binding{kind: "module", mods: b.mods, subs: b.subs}, true
+				return binding{kind: "module", cover: b.cover}, true
 			}
 		}
 	case *ast.SelectorExpr:
 		if k, ok := w.fieldOf(x); ok {
 			if k.Struct == w.cfg.Root && moduleMaps[k.Field] {
-				return binding{kind: "module", mods: k.Field == "Modules", subs: k.Field == "SubModules"}, true
+				return binding{kind: "module", cover: k.Field}, true
 			}
 			// a slice field of a loaded module
 			if id := baseIdent(x); id != nil {
 				if o := w.info.Uses[id]; o != nil {
 					if b, ok := env[o]; ok && b.kind == "module" {
 						if _, direct := x.X.(*ast.Ident); direct {
-							return binding{kind: "elem", mods: b.mods, subs: b.subs}, true
+							return binding{kind: "elem", cover: b.cover}, true
 						}
 					}
 				}
@@ -360,7 +381,7 @@ func (rw *resetWalker) rangeBinding(e ast.Expr, env map[types.Object]binding) (b
 				if id, direct := sel.X.(*ast.Ident); direct {
 					if o := w.info.Uses[id]; o != nil {
 						if b, ok := env[o]; ok && b.kind == "module" {
-							return binding{kind: "elem", mods: b.mods, subs: b.subs}, true
+							return binding{kind: "elem", cover: b.cover}, true
 						}
 					}
 				}
@@ -415,13 +436,13 @@ func (rw *resetWalker) call(c *ast.CallExpr, env map[types.Object]binding, cond 
 	// an all-modules iterator with a function literal
 	if len(c.Args) == 1 {
 		if lit, ok := c.Args[0].(*ast.FuncLit); ok {
-			if mods, subs, isIter := w.iteratorCoverage(fd); isIter && len(lit.Type.Params.List) == 1 && len(lit.Type.Params.List[0].Names) == 1 {
+			if cover, isIter := w.iteratorCoverage(fd); isIter && len(lit.Type.Params.List) == 1 && len(lit.Type.Params.List[0].Names) == 1 {
 				env2 := map[types.Object]binding{}
 				for k, v := range env {
 					env2[k] = v
 				}
 				if o := w.info.Defs[lit.Type.Params.List[0].Names[0]]; o != nil {
-					env2[o] = binding{kind: "module", mods: mods, subs: subs}
+					env2[o] = binding{kind: "module", cover: cover}
 				}
 				rw.walk(lit.Body.List, env2, cond, depth+1)
 				return
@@ -564,6 +585,17 @@ func (w *world) classifyResets(listed []*fieldFact) {
 	for _, a := range w.cfg.Fields {
 		allow[a.Field] = a
 	}
+	// the module containers: registry fields of the root whose type mentions *Module
+	moduleMaps = map[string]bool{}
+	if st := w.structs[w.cfg.Root]; st != nil {
+		for i := 0; i < st.NumFields(); i++ {
+			k := w.cfg.Root + "." + st.Field(i).Name()
+			if al, ok := allow[k]; ok && al.Class == "registry" && w.directMentions(st.Field(i).Type())["Module"] {
+				moduleMaps[st.Field(i).Name()] = true
+			}
+		}
+	}
+	w.note("module containers (every accepted module is in at least one, possibly in one only): %v", sortedKeys(moduleMaps))
 	// the prologue of Process
 	proc := w.decls[w.cfg.Process]
 	if proc == nil || proc.Body == nil {
@@ -592,13 +624,13 @@ func (w *world) classifyResets(listed []*fieldFact) {
 		rf := rw.facts[f.Key]
 		switch {
 		case inAllow && a.ResetIn != "" && a.ResetIn != w.cfg.Process:
-			f.Reset, f.Why = w.resetElsewhere(f, a.ResetIn)
+			f.Reset, f.Why = w.resetElsewhere(f, a.ResetIn, a)
 		case rf != nil && rf.full:
 			f.Reset, f.Why = "full-reset", "prologue of "+w.cfg.Process+": "+strings.Join(rf.sites, ", ")
-		case rf != nil && rf.mods && rf.subs:
-			f.Reset, f.Why = "full-reset", "prologue of "+w.cfg.Process+", for every element of every module and submodule: "+strings.Join(rf.sites, ", ")
-		case rf != nil && (rf.mods || rf.subs):
-			f.Reset, f.Why = "partial", "reset only for the elements reached from one of ms.Modules / ms.SubModules: "+strings.Join(rf.sites, ", ")
+		case rf != nil && rf.cover != "" && covers(rf.cover, w.required(a)):
+			f.Reset, f.Why = "full-reset", "prologue of "+w.cfg.Process+", for every element of every module of "+rf.cover+w.requiredNote(a)+": "+strings.Join(rf.sites, ", ")
+		case rf != nil && rf.cover != "":
+			f.Reset, f.Why = "partial", "reset only for the elements reached from the modules of "+rf.cover+", not of every module container "+strings.Join(w.required(a), ",")+": "+strings.Join(rf.sites, ", ")
 		case rf != nil && len(rf.partial) > 0:
 			f.Reset, f.Why = "partial", strings.Join(rf.partial, "; ")
 		case rf != nil && rf.bump:
@@ -620,7 +652,7 @@ func (w *world) classifyResets(listed []*fieldFact) {
 }
 
 // resetElsewhere: the field names another function as the place of its reset.
-func (w *world) resetElsewhere(f *fieldFact, g string) (string, string) {
+func (w *world) resetElsewhere(f *fieldFact, g string, a AllowField) (string, string) {
 	gd := w.decls[g]
 	if gd == nil || gd.Body == nil {
 		return "none", "reset function " + g + " not found"
@@ -642,12 +674,12 @@ func (w *world) resetElsewhere(f *fieldFact, g string) (string, string) {
 		rw.stmt(s, map[types.Object]binding{}, false, 0)
 		rf := rw.facts[f.Key]
 		switch {
-		case rf != nil && (rf.full || (rf.mods && rf.subs)) && len(rf.partial) == 0:
-			return "full-reset", "first mention in " + g + " (called unconditionally from " + w.cfg.Process + "): " + strings.Join(rf.sites, ", ")
+		case rf != nil && (rf.full || (rf.cover != "" && covers(rf.cover, w.required(a)))) && len(rf.partial) == 0:
+			return "full-reset", "first mention in " + g + " (called unconditionally from " + w.cfg.Process + "), for every module of " + rf.cover + w.requiredNote(a) + ": " + strings.Join(rf.sites, ", ")
 		case rf != nil && len(rf.partial) > 0:
 			return "partial", "first mention in " + g + " at " + w.pos(s) + ": " + strings.Join(rf.partial, "; ")
-		case rf != nil && (rf.mods || rf.subs):
-			return "partial", "first mention in " + g + " at " + w.pos(s) + " resets only the elements reached from one of ms.Modules / ms.SubModules"
+		case rf != nil && rf.cover != "":
+			return "partial", "first mention in " + g + " at " + w.pos(s) + " resets only the elements reached from the modules of " + rf.cover + ", not of every module container " + strings.Join(w.required(a), ",")
 		}
 		return "none", "first mention in " + g + " at " + w.pos(s) + " is not a full reset"
 	}
@@ -1341,4 +1373,20 @@ func (w *world) writesThroughReceiver(fd *ast.FuncDecl, depth int, seen map[stri
 		return !found
 	})
 	return found
+}
+
+// required: the module containers an element-wise reset of the field must range over: all of
+// them, unless the allow-list narrows it (with a reason).
+func (w *world) required(a AllowField) []string {
+	if len(a.Containers) > 0 {
+		return a.Containers
+	}
+	return sortedKeys(moduleMaps)
+}
+
+func (w *world) requiredNote(a AllowField) string {
+	if len(a.Containers) > 0 {
+		return " (the allow-list requires " + strings.Join(a.Containers, ",") + " only: " + a.ContainersReason + ")"
+	}
+	return ""
 }
